@@ -152,11 +152,8 @@ def hexParse (t : List Char) : Outcome Bytes :=
 
 /-! ### ISO8601Time: RFC 3339 text of an instant in a fixed zone -/
 
-/-- days since 1970-01-01 ↦ (year, month, day), proleptic Gregorian -/
-def civilFromDays (z : Int) : Int × Int × Int :=
-  let z := z + 719468
-  let era := z / 146097
-  let doe := z - era * 146097
+/-- (era, day of era) ↦ (year, month, day): the part of the civil-date algorithm after the split into 400-year eras -/
+def civilOfDoe (era doe : Int) : Int × Int × Int :=
   let yoe := (doe - doe / 1460 + doe / 36524 - doe / 146096) / 365
   let y := yoe + era * 400
   let doy := doe - (365 * yoe + yoe / 4 - yoe / 100)
@@ -164,6 +161,10 @@ def civilFromDays (z : Int) : Int × Int × Int :=
   let d := doy - (153 * mp + 2) / 5 + 1
   let m := if mp < 10 then mp + 3 else mp - 9
   (if m ≤ 2 then y + 1 else y, m, d)
+
+/-- days since 1970-01-01 ↦ (year, month, day), proleptic Gregorian -/
+def civilFromDays (z : Int) : Int × Int × Int :=
+  civilOfDoe ((z + 719468) / 146097) ((z + 719468) % 146097)
 
 def daysFromCivil (y m d : Int) : Int :=
   let y := if m ≤ 2 then y - 1 else y
@@ -178,9 +179,15 @@ def daysIn (y m : Int) : Int :=
   if m == 2 then (if isLeap y then 29 else 28)
   else if m == 4 || m == 6 || m == 9 || m == 11 then 30 else 31
 
+def dig (n : Nat) : Char := Char.ofNat (48 + n % 10)
+
+/-- `appendInt(x, width)`: zero padded decimal; the two widths RFC 3339 uses are written digit by digit -/
 def pad (w : Nat) (n : Nat) : List Char :=
-  let s := (toString n).toList
-  List.replicate (w - s.length) '0' ++ s
+  if w = 2 ∧ n < 100 then [dig (n / 10), dig n]
+  else if w = 4 ∧ n < 10000 then [dig (n / 1000), dig (n / 100), dig (n / 10), dig n]
+  else
+    let s := (toString n).toList
+    List.replicate (w - s.length) '0' ++ s
 
 /-- `time.Time.Format(time.RFC3339)` of the instant `sec` (Unix seconds) shown in a zone `offMin` minutes east of UTC -/
 def formatRFC3339 (sec : Int) (offMin : Int) : List Char :=
